@@ -166,7 +166,7 @@ def get_fastapi_router(
     graph = MappingServiceGraph(converter=converter)
     processor = MappingServiceSPARQLProcessor(graph=graph)
 
-    def _resolve(accept: str, sparql: str) -> Response:
+    def _resolve(accept: str | None, sparql: str) -> Response:
         content_type = handle_header(accept)
         results = graph.query(sparql, processor=processor)
         response = results.serialize(format=CONTENT_TYPE_TO_RDFLIB_FORMAT[content_type])
@@ -175,7 +175,7 @@ def get_fastapi_router(
     @api_router.get(route)
     def resolve_get(
         query: str = Query(description="The SPARQL query to run"),
-        accept: str = Header(),
+        accept: str | None = Header(default=None),
     ) -> Response:
         """Run a SPARQL query and serve the results."""
         return _resolve(accept, query)
@@ -183,7 +183,7 @@ def get_fastapi_router(
     @api_router.post(route)
     def resolve_post(
         query: str = Form(description="The SPARQL query to run"),
-        accept: str = Header(),
+        accept: str | None = Header(default=None),
     ) -> Response:
         """Run a SPARQL query and serve the results."""
         return _resolve(accept, query)
